@@ -79,6 +79,7 @@ func iface2int(raw any) (r int64, ok bool) {
 		if i, err := raw.(intConverter).Int(); err == nil {
 			return i, true
 		}
+		ok = false
 	default:
 		ok = false
 	}
